@@ -8,7 +8,7 @@ from pathsum import ERR, OK, SOME, St, show_term, strip_sites
 
 RERUN_ON_CONFIGS = ("dfm", "std")
 LEVEL = "other"
-RULE_TEXT = ("C04-F format tables of every Response impl, read from path summaries with decoded format templates: integers "
+RULE_TEXT = ("C04-W receiver-ops: on no path, the failing ones included, does a method of a shipped Write impl apply anything to the writer itself but appending or read-only operations. C04-F format tables of every Response impl, read from path summaries with decoded format templates: integers "
              "are siblings writing `{}` of self; bool '1'/'0'; Characters the payload; floats share the decision table "
              "nan -> 9.91E+37, +inf -> 9.9E+37, -inf -> -9.9E+37, finite -> `{}`; Arbitrary `#<digits><len>` + raw bytes "
              "(`#10` when empty); tuples and lists write their elements in order with ',' between; Error -> (number, text). "
@@ -654,6 +654,11 @@ def rule_X(ck, lib):
     ck.floor("C04-X", "paths of execute", n, 6)
 
 
+# what a Write impl may do with its receiver: append, or look
+RECEIVER_OPS = frozenset(("extend_from_slice", "push", "push_str", "write_fmt", "write_str", "write_char", "extend", "reserve", "try_reserve",
+                          "len", "capacity", "is_full", "is_empty", "as_slice", "as_ref", "as_bytes", "as_str", "deref", "borrow", "iter", "last", "first", "get"))
+
+
 def rule_W(ck, lib, tag=""):
     allowed_fn = lambda d, b: (b.get("trait") in ("microscpi::response::Response", "microscpi::response::Write")) or d in ("microscpi::interface::Interface::execute",) or d.startswith("microscpi::response::")
     base_allowed = allowed_fn
@@ -830,6 +835,27 @@ def rule_W(ck, lib, tag=""):
                     good = False
                     why = "result of the sibling method %s is neither checked nor returned" % dele[1].split("::")[-1]
         ck.judge(good and oks, "C04-W", key, "%s::%s appends exactly its argument or reports failure" % (st, name), "%s::%s: %s" % (st, name, why or "no success path"))
+        # ... and on *no* path - the failing ones included - does a writer method take anything away from what the writer
+        # already holds (clear / truncate / pop ... on overflow would wipe the complete answer of an earlier unit of the
+        # same message, which `process` has not sent yet): the only operations on the receiver are appending or read-only
+        n_recv = 0
+        bad_ops = []
+        for x in ex:
+            for c in x.calls():
+                if not c[2]:
+                    continue
+                r = strip_sites(c[2][0])
+                while r[0] in ("ref", "refmut", "mutref", "deref"):
+                    r = r[1]
+                if r != SELF:
+                    continue
+                n_recv += 1
+                op = c[1].split("::")[-1]
+                if w_method(c[1]) is not None or op in RECEIVER_OPS:
+                    continue
+                bad_ops.append("%s (%s)" % (op, c[3] if len(c) > 3 else "?"))
+        ck.judge(not bad_ops, "C04-W", key + ":receiver-ops", "%d operations on the writer itself, all appending or read-only" % n_recv,
+                 "%s::%s applies %s to the writer itself: a writer method may append to what it holds or leave it alone, never remove or overwrite it" % (st, name, sorted(set(bad_ops))))
 
 
 def rule_A(ck):
